@@ -18,5 +18,6 @@ for e in h['harnesses']:
         break
 else:
     sys.exit('no such harness')
-json.dump(h, open(p, 'w'), indent=1)
-open(p, 'a').write('\n')
+import os
+open(p + '.tmp', 'w').write(json.dumps(h, indent=1) + '\n')
+os.replace(p + '.tmp', p)
